@@ -339,3 +339,11 @@ where
     let s = serde_wasm_bindgen::Serializer::new().serialize_maps_as_objects(true);
     obj.serialize(&s)
 }
+
+/// Whether a variable name has to be written with a leading backslash to be read back as one
+/// name: an underscore inside of it would otherwise start an index. Leading underscores (and the
+/// `$` of generated names) are part of a plain name, `_c1` is written as it is.
+pub(crate) fn needs_variable_escape(name: &str) -> bool {
+    let name = name.strip_prefix('$').unwrap_or(name);
+    name.trim_start_matches('_').contains('_')
+}
